@@ -25,6 +25,10 @@ func replay(c *vlib.Ctx) {
 			Type     string `json:"type"`
 			BytesHex string `json:"bytes_hex"`
 			BlockHex string `json:"block_hex"`
+			History  []struct {
+				Goroutine int    `json:"goroutine"`
+				Entry     string `json:"entry"`
+			} `json:"history"`
 		} `json:"case"`
 	}
 	if err := json.Unmarshal(rawFile, &f); err != nil {
@@ -50,6 +54,9 @@ func replay(c *vlib.Ctx) {
 		}
 	}
 	k.purposeReplay(sim, rs, func() int { nsc++; return nsc })
+	if f.Case.Type == "PureHistory" {
+		replayPureHistory(c, k, f.Case.History)
+	}
 	t := wb.TypeByName(f.Case.Type)
 	bs, herr := hex.DecodeString(f.Case.BytesHex)
 	if t != nil && herr == nil && len(bs) > 0 {
